@@ -996,3 +996,404 @@ func checkNoArithmeticPositions(p *Program, r *Report, rule string, g *ssa.Funct
 	}
 	r.Discharge(rule, key, p.Pos(g.Pos()), fmt.Sprintf("no position list computed from the leaf count meets the update-data nodes (%d arithmetic list(s) in the function)", len(tainted)), true)
 }
+
+// ---------------------------------------------------------------------------
+// POSITION-IN-FOREST (R03d): the hashing core must refuse a position that does
+// not exist in a forest of numLeaves leaves. Structurally: some failing return
+// of the core is guarded by a comparison between a value that flows from the
+// claimed targets and a bound that flows from a call taking the leaf count.
+// (Replacing the bound by a function of the forest height alone lets
+// non-existent positions in the unpopulated tail of a row through.)
+
+func checkPositionInForest(p *Program, r *Report, rule string, core *ssa.Function) {
+	if core == nil {
+		r.MissingAnchor(rule, "calculateHashes", "hashing core not found")
+		return
+	}
+	name := p.FuncName(core)
+	key := name + "/position-exists"
+	// the leaf-count parameter: first uint64 parameter; the proof: struct parameter with Targets
+	var numLeaves, proof ssa.Value
+	for _, par := range core.Params {
+		if numLeaves == nil && isUint64(par.Type()) {
+			numLeaves = par
+		}
+		if p.localNamed(par.Type(), "Proof") {
+			proof = par
+		}
+	}
+	if numLeaves == nil || proof == nil {
+		r.Undecided(rule, key, p.Pos(core.Pos()), "cannot identify the leaf-count / proof parameters of the core")
+		return
+	}
+	fromLeafCountCall := func(v ssa.Value) bool {
+		return flowsFrom(v, func(x ssa.Value) bool {
+			c, ok := x.(*ssa.Call)
+			if !ok {
+				return false
+			}
+			for _, a := range c.Common().Args {
+				if a == numLeaves {
+					return true
+				}
+			}
+			return false
+		}, 0, map[ssa.Value]bool{})
+	}
+	pi := paramIndex(core, proof)
+	fromTargets := func(v ssa.Value) bool {
+		return flowsFrom(v, func(x ssa.Value) bool {
+			if f, ok := x.(*ssa.Field); ok && f.X == proof && fieldName(proof.Type(), f.Field) == "Targets" {
+				return true
+			}
+			return paramFieldRead(core, x, pi, "Targets")
+		}, 0, map[ssa.Value]bool{})
+	}
+	for _, ret := range errorReturns(core) {
+		for _, g := range guardsAt(ret.Block()) {
+			rel, ok := relOf(g)
+			if !ok {
+				continue
+			}
+			switch rel.Op {
+			case token.GTR, token.LSS, token.GEQ, token.LEQ:
+			default:
+				continue
+			}
+			if (fromTargets(rel.X) && fromLeafCountCall(rel.Y) && !fromLeafCountCall(rel.X)) ||
+				(fromTargets(rel.Y) && fromLeafCountCall(rel.X) && !fromLeafCountCall(rel.Y)) {
+				r.Discharge(rule, key, posOf(p, ret), "a failing return of the core is guarded by a comparison of a claimed position with a bound computed from the leaf count", true)
+				return
+			}
+		}
+	}
+	r.Violate(rule, key, p.Pos(core.Pos()), "no failing return of the hashing core is guarded by a comparison of a claimed position with a bound that depends on the leaf count: positions that do not exist in the forest would be hashed instead of refused", "in "+name)
+}
+
+// ---------------------------------------------------------------------------
+// NONZERO-HASHES (R03f). The hashing core treats the reserved all-zero hash as
+// "this subtree is gone: move the sibling up unhashed" - the rule it needs to
+// recompute roots after a deletion. In verification mode a caller-supplied
+// zero hash therefore lets the other hash climb without being hashed. Every
+// verifier that hands caller-supplied hashes to the core must first refuse the
+// zero hash among the target hashes and among the proof hashes.
+
+// emptyChecks reports which hash sources fn compares with the reserved empty
+// hash on a path that returns an error: parameter indexes of []Hash
+// parameters, and -(idx+1) for the Proof field of a Proof parameter idx.
+func emptyChecks(p *Program, fn *ssa.Function) map[int]bool {
+	out := map[int]bool{}
+	for _, b := range fn.Blocks {
+		for _, in := range b.Instrs {
+			bo, ok := in.(*ssa.BinOp)
+			if !ok || (bo.Op != token.EQL && bo.Op != token.NEQ) || !isHashType(bo.X.Type()) {
+				continue
+			}
+			var other ssa.Value
+			switch {
+			case isEmptyGlobal(bo.X):
+				other = bo.Y
+			case isEmptyGlobal(bo.Y):
+				other = bo.X
+			default:
+				continue
+			}
+			// the equal edge must lead to a failing return
+			var iff *ssa.If
+			for _, ref := range *bo.Referrers() {
+				if i, ok := ref.(*ssa.If); ok {
+					iff = i
+				}
+			}
+			if iff == nil {
+				continue
+			}
+			eqSucc := iff.Block().Succs[0]
+			if bo.Op == token.NEQ {
+				eqSucc = iff.Block().Succs[1]
+			}
+			if !blockReturnsNonNilError(eqSucc) {
+				continue
+			}
+			for i, par := range fn.Params {
+				if isHashSlice(par.Type()) && derivesDeep(other, func(x ssa.Value) bool { return x == ssa.Value(par) }, 0, map[ssa.Value]bool{}) {
+					out[i] = true
+				}
+				if p.localNamed(par.Type(), "Proof") {
+					i := i
+					if derivesDeep(other, func(x ssa.Value) bool {
+						if f, ok := x.(*ssa.Field); ok && f.X == ssa.Value(par) && fieldName(par.Type(), f.Field) == "Proof" {
+							return true
+						}
+						return paramFieldRead(fn, x, i, "Proof")
+					}, 0, map[ssa.Value]bool{}) {
+						out[-(i + 1)] = true
+					}
+				}
+			}
+		}
+	}
+	return out
+}
+
+func checkNonzeroHashes(p *Program, r *Report, rule string, a *verifyAnchors) {
+	n := 0
+	for _, fn := range sortedFuncs(p, a.spine) {
+		for _, sc := range callsIn(p, fn) {
+			if sc.call.Common().StaticCallee() != a.core {
+				continue
+			}
+			var hashes, proof ssa.Value
+			for _, x := range sc.call.Common().Args {
+				if isHashSlice(x.Type()) {
+					hashes = x
+				}
+				if p.localNamed(x.Type(), "Proof") {
+					proof = x
+				}
+			}
+			if hashes == nil || proof == nil || isNilConst(hashes) {
+				continue
+			}
+			key := fmt.Sprintf("%s->%s#%d", p.FuncName(fn), sc.label, sc.ord)
+			// behind a successful verifier run on the same values the check was already made
+			if j, why := coreCallJustified(p, sc.call, a); j {
+				r.Discharge(rule, key, posOf(p, sc.call), why, false)
+				continue
+			}
+			n++
+			coveredH, coveredP := false, false
+			// inline checks in fn
+			own := emptyChecks(p, fn)
+			for i, par := range fn.Params {
+				if own[i] && sameValue(par, hashes) {
+					coveredH = true
+				}
+				if own[-(i+1)] && sameStructSource(par, proof) {
+					coveredP = true
+				}
+				if own[-(i+1)] && ssa.Value(par) == proof {
+					coveredP = true
+				}
+			}
+			// helper calls that dominate the core call, with their error examined
+			for _, hc := range callsIn(p, fn) {
+				h := hc.call.Common().StaticCallee()
+				if h == nil || !p.owns(h) || h == a.core || !dominatesInstr(hc.call, sc.call) || errorResultIndex(h.Signature) < 0 {
+					continue
+				}
+				if v := errChain(hc.call, ErrChainOpts{}); !v.OK {
+					continue
+				}
+				ec := emptyChecks(p, h)
+				for i, arg := range hc.call.Common().Args {
+					if ec[i] && sameValue(arg, hashes) {
+						coveredH = true
+					}
+					if ec[-(i+1)] && (arg == proof || sameValue(arg, proof)) {
+						coveredP = true
+					}
+				}
+			}
+			switch {
+			case coveredH && coveredP:
+				r.Discharge(rule, key, posOf(p, sc.call), "the target hashes and the proof hashes are both compared with the reserved zero hash, with an error return, before the core runs", true)
+			default:
+				miss := "the target hashes and the proof hashes"
+				if coveredH {
+					miss = "the proof hashes"
+				} else if coveredP {
+					miss = "the target hashes"
+				}
+				r.Violate(rule, key, posOf(p, sc.call), "the core treats the all-zero hash as 'subtree gone, move the sibling up unhashed', but "+miss+" supplied by the caller are not checked against it before the core runs: a zero hash makes a false claim verify", "in "+p.FuncName(fn))
+			}
+		}
+	}
+	r.Floor(rule, "core call sites on caller-supplied hashes", n, 2)
+}
+
+// ---------------------------------------------------------------------------
+// SIBLING-TEST (R03g). rightSib(x) returns x itself when x is a right child, so
+// "rightSib(a) == b" alone does not establish that b is a's sibling: a second
+// claim at the same right-child position would be paired with the first as if
+// it were the left sibling. In the verification core every such test must be
+// joined with a test that a is a left child (or a != b).
+
+func orOneFunc(p *Program) *ssa.Function {
+	// the function  func(pos uint64) uint64 { return pos | 1 }
+	for _, f := range p.Funcs {
+		if f.Parent() != nil || f.Signature.Recv() != nil || len(f.Params) != 1 || !isUint64(f.Params[0].Type()) || len(f.Blocks) != 1 {
+			continue
+		}
+		rets := returnsOf(f)
+		if len(rets) != 1 || len(rets[0].Results) != 1 {
+			continue
+		}
+		bo, ok := rets[0].Results[0].(*ssa.BinOp)
+		if !ok || bo.Op != token.OR || bo.X != ssa.Value(f.Params[0]) {
+			continue
+		}
+		if c, ok := bo.Y.(*ssa.Const); ok && c.Value != nil && c.Uint64() == 1 {
+			return f
+		}
+	}
+	return nil
+}
+
+// isLeftTest: cond establishes (with the given truth) that v is a left child /
+// differs from other.
+func isLeftTest(p *Program, g guard, v, other ssa.Value) bool {
+	// call of a predicate  func(pos uint64) bool { return pos&1 == 0 }
+	if c, ok := g.Cond.(*ssa.Call); ok && g.Truth {
+		if sc := c.Common().StaticCallee(); sc != nil && p.owns(sc) && len(c.Common().Args) == 1 && sameExpr(c.Common().Args[0], v, 0) {
+			if evenPredicate(sc) {
+				return true
+			}
+		}
+	}
+	if rel, ok := relOf(g); ok {
+		// v != other
+		if rel.Op == token.NEQ && ((sameExpr(rel.X, v, 0) && sameExpr(rel.Y, other, 0)) || (sameExpr(rel.Y, v, 0) && sameExpr(rel.X, other, 0))) {
+			return true
+		}
+		// v&1 == 0
+		if rel.Op == token.EQL {
+			for _, pr := range [][2]ssa.Value{{rel.X, rel.Y}, {rel.Y, rel.X}} {
+				if bo, ok := pr[0].(*ssa.BinOp); ok && bo.Op == token.AND && sameExpr(bo.X, v, 0) {
+					if c1, ok := bo.Y.(*ssa.Const); ok && c1.Value != nil && c1.Uint64() == 1 {
+						if c0, ok := pr[1].(*ssa.Const); ok && c0.Value != nil && c0.Uint64() == 0 {
+							return true
+						}
+					}
+				}
+			}
+		}
+	}
+	return false
+}
+
+func evenPredicate(f *ssa.Function) bool {
+	if len(f.Params) != 1 || len(f.Blocks) != 1 {
+		return false
+	}
+	rets := returnsOf(f)
+	if len(rets) != 1 || len(rets[0].Results) != 1 {
+		return false
+	}
+	bo, ok := rets[0].Results[0].(*ssa.BinOp)
+	if !ok || bo.Op != token.EQL {
+		return false
+	}
+	and, ok := bo.X.(*ssa.BinOp)
+	if !ok || and.Op != token.AND || and.X != ssa.Value(f.Params[0]) {
+		return false
+	}
+	c1, ok1 := and.Y.(*ssa.Const)
+	c0, ok0 := bo.Y.(*ssa.Const)
+	return ok1 && ok0 && c1.Value != nil && c0.Value != nil && c1.Uint64() == 1 && c0.Uint64() == 0
+}
+
+func checkSiblingTests(p *Program, r *Report, rule string, a *verifyAnchors) {
+	rs := orOneFunc(p)
+	if rs == nil {
+		r.MissingAnchor(rule, "rightSib", "the function computing a right sibling (pos|1) was not found")
+		return
+	}
+	if a.core == nil {
+		r.MissingAnchor(rule, "calculateHashes", "hashing core not found")
+		return
+	}
+	n := 0
+	for _, fn := range sortedFuncs(p, p.StaticReach(a.core)) {
+		ord := 0
+		for _, b := range fn.Blocks {
+			for _, in := range b.Instrs {
+				bo, ok := in.(*ssa.BinOp)
+				if !ok || (bo.Op != token.EQL && bo.Op != token.NEQ) {
+					continue
+				}
+				var call *ssa.Call
+				var other ssa.Value
+				if c, ok := bo.X.(*ssa.Call); ok && c.Common().StaticCallee() == rs {
+					call, other = c, bo.Y
+				} else if c, ok := bo.Y.(*ssa.Call); ok && c.Common().StaticCallee() == rs {
+					call, other = c, bo.X
+				}
+				if call == nil {
+					continue
+				}
+				n++
+				ord++
+				key := fmt.Sprintf("%s/sibling-test#%d", p.FuncName(fn), ord)
+				v := call.Common().Args[0]
+				ok2 := false
+				for _, g := range guardsAt(b) {
+					if isLeftTest(p, g, v, other) {
+						ok2 = true
+					}
+				}
+				// or the sibling edge itself is further guarded before anything is concluded
+				if !ok2 {
+					for _, ref := range *bo.Referrers() {
+						iff, isIf := ref.(*ssa.If)
+						if !isIf {
+							continue
+						}
+						sib := iff.Block().Succs[0]
+						if bo.Op == token.NEQ {
+							sib = iff.Block().Succs[1]
+						}
+						for _, g := range guardsAt(sib) {
+							if g.If != iff && isLeftTest(p, g, v, other) {
+								ok2 = true
+							}
+						}
+					}
+				}
+				if ok2 {
+					r.Discharge(rule, key, posOf(p, bo), "the sibling test is joined with a test that the position is a left child", true)
+				} else {
+					r.Violate(rule, key, posOf(p, bo), "siblinghood is concluded from rightSib(a) == b alone; rightSib returns a itself for a right child, so a second claim at the same right-child position is paired with the first as its sibling and a false claim verifies", "in "+p.FuncName(fn))
+				}
+			}
+		}
+	}
+	r.Floor(rule, "sibling tests in the hashing core", n, 2)
+}
+
+// ---------------------------------------------------------------------------
+// CANDIDATE-POSITIONS-USED (R03h). A recomputed root must be compared with the
+// root of the tree it was computed in. Structurally: the verifier has to use
+// the positional result of the core, not only the list of candidate hashes.
+
+func checkCandidatePositionsUsed(p *Program, r *Report, rule string, a *verifyAnchors) {
+	n := 0
+	for _, fn := range []*ssa.Function{a.verify, a.pollardVerify} {
+		if fn == nil {
+			continue
+		}
+		for _, sc := range callsIn(p, fn) {
+			if sc.call.Common().StaticCallee() != a.core {
+				continue
+			}
+			n++
+			key := p.FuncName(fn) + "/candidate-positions"
+			used := false
+			res := a.core.Signature.Results()
+			for i := 0; i < res.Len(); i++ {
+				if !p.localNamed(res.At(i).Type(), "hashAndPos") {
+					continue
+				}
+				if v := resultValue(sc.call, i); v != nil && len(nonDebugRefs(v)) > 0 {
+					used = true
+				}
+			}
+			if used {
+				r.Discharge(rule, key, posOf(p, sc.call), "the verifier uses the positions the core computed the candidates at", true)
+			} else {
+				r.Violate(rule, key, posOf(p, sc.call), "the verifier discards the positions at which the core computed the root candidates and matches the candidate hashes against the roots as an in-order subsequence: a hash equal to the root of one tree is accepted at the root position of another tree", "in "+p.FuncName(fn))
+			}
+		}
+	}
+	r.Floor(rule, "verifiers matching candidates against roots", n, 2)
+}
